@@ -96,7 +96,12 @@ impl Dy {
         bits <= 53 && self.exp < 1000
     }
     pub fn to_f64(self) -> f64 {
-        (self.num as f64) / (2f64).powi(self.exp as i32)
+        // exact: halving never rounds (no powi: its precision is unspecified)
+        let mut x = self.num as f64;
+        for _ in 0..self.exp {
+            x *= 0.5;
+        }
+        x
     }
     pub fn show(self) -> String {
         if self.exp == 0 {
